@@ -25,6 +25,7 @@ W_XML = ["a&b", "<tag>", "\"q\"", "it's", "x>y", "&amp;", "<"]
 W_PAREN = ["(", ")", "-LRB-", "-RRB-", "[", "]", "{", "}", "a(b", "-LSB-"]
 W_PUNCT = [",", ".", "?", "!", ";", ":", "--", "-", "/", "..."]
 W_PAIR = ["\"", "'", "''", "`", "``"]
+W_HASH = ["#5021", "#12", "#", "#abc", "#1234x", "##", "#500th"]
 W_LEN = ["abcdefg", "abcdefgh", "abcdefghijklmno", "abcdefghijklmnop", "abcdefghijklmnopq"]
 P_PUNCT = ["$,", "$.", ":", "PUNCT"]
 
@@ -79,7 +80,7 @@ def gap_degree_node(node):
 
 
 def gap_degree(sent):
-    return max(gap_degree_node(c) for c in constituents(sent['root']))
+    return max([gap_degree_node(c) for c in constituents(sent['root'])] or [0])
 
 
 def is_continuous(sent):
@@ -104,7 +105,7 @@ def default_knobs():
             "flat": 0.1}
 
 
-def swarm_knobs(rng, tier="quick", allow=("ascii", "latin1", "wide", "xml", "len"),
+def swarm_knobs(rng, tier="quick", allow=("ascii", "latin1", "wide", "xml", "len", "hash"),
                 continuous=False):
     """Per-scenario workload knobs (swarm style)."""
     k = default_knobs()
@@ -143,7 +144,7 @@ def gen_word(rng, k):
         return rng.choice(W_PAIR), rng.choice(P_PUNCT)
     cls = rng.choice(k["words"])
     pool = {"ascii": W_ASCII, "latin1": W_LATIN1, "wide": W_WIDE, "xml": W_XML,
-            "paren": W_PAREN, "len": W_LEN}[cls]
+            "paren": W_PAREN, "len": W_LEN, "hash": W_HASH}[cls]
     pool = pool[:max(1, k.get("vocab", 100))]
     return rng.choice(pool), rng.choice(k["pos"])
 
@@ -237,13 +238,20 @@ def summary(sent):
             "gap": gap_degree(sent), "depth": depth(sent["root"])}
 
 
+def token_tree(rng, k, sid=1):
+    """A tree that consists of a single token (its root is the token)."""
+    w, p = gen_word(rng, k)
+    return {"sid": sid, "tokens": [[w, p, "--", "--", "--"]], "root": 1}
+
+
 def shape_class(tb):
     """Coarse shape class of a treebank, for 'distinct shapes' counting."""
     if not tb:
         return "empty"
     n = max(len(s["tokens"]) for s in tb)
     g = max(gap_degree(s) for s in tb)
-    un = any(len(c[2]) == 1 for s in tb for c in constituents(s["root"]))
+    un = any(len(c[2]) == 1 for s in tb for c in constituents(s["root"])) or \
+        any(isinstance(s["root"], int) for s in tb)
     return "s%d-n%d-g%d-%s" % (min(len(tb), 4), min(n, 9), min(g, 3), "u" if un else "b")
 
 
